@@ -361,6 +361,22 @@ pub enum Outcome {
     Panic,
 }
 
+/// Payload of the simulated caller's panic (raised with `resume_unwind`, so no panic hook runs).
+struct CallerCrash;
+
+/// Drops `value` by unwinding: a panic of the caller's own code while `value` is alive, caught by the caller.
+pub fn unwind_through<T>(value: T) {
+    let r = std::panic::catch_unwind(std::panic::AssertUnwindSafe(move || {
+        let _alive = value;
+        std::panic::resume_unwind(Box::new(CallerCrash));
+    }));
+    if let Err(p) = r {
+        if !p.is::<CallerCrash>() {
+            std::panic::resume_unwind(p);
+        }
+    }
+}
+
 pub fn outcome_of<T>(res: &Result<Result<T, Error>, String>) -> Outcome {
     match res {
         Ok(Ok(_)) => Outcome::Ok,
@@ -601,10 +617,34 @@ fn grow(held: Need, need: Need) -> Need {
     }
 }
 
+/// Marathon histories: one run in 800 keeps one object for tens of thousands of rounds (tiny configuration, mostly
+/// idle resets between two stretches of ordinary random operations), so that bookkeeping which only repeats after
+/// 2^8 or 2^16 rounds (generation counters, round stamps) comes round again while the object is being checked.
+fn gen_marathon(ch: &mut Chooser, kind: Kind) -> Option<((usize, usize, usize), usize)> {
+    if !ch.chance("marathon", 1, 800) {
+        return None;
+    }
+    let cfg = (1 + ch.pick_usize("marathon.k", 4), 1 + ch.pick_usize("marathon.r", 4), [2usize, 64, 66][ch.pick_usize("marathon.b", 3)]);
+    let cfg = if envelope::supported(kind.layer.family(), cfg.0, cfg.1) { cfg } else { (2, 2, cfg.2) };
+    // the idle stretch is a little longer than 2^8 or 2^16 rounds; see `marathon_marks`
+    let idle = if ch.chance("marathon.short", 1, 3) { 256 } else { 65_536 } + 40 + ch.pick_usize("marathon.idle", 20);
+    Some((cfg, idle))
+}
+
+/// In which idle round each of `n` positions gets its one and only mark (a shard added in a round that is then
+/// abandoned): `period - (0..5)` rounds before the end of the idle stretch, for a period of 2^8, 2^8 - 1, 2^16 or
+/// 2^16 - 1, so that a round stamp or generation counter of such a period that is compared for equality comes
+/// back to the mark's value within the first few rounds after the idle stretch, before the position is used again.
+fn marathon_marks(ch: &mut Chooser, idle: usize, n: usize) -> Vec<usize> {
+    let period = if idle < 1000 { 256 } else { 65_536 };
+    (0..n).map(|_| idle - (period - ch.pick_usize("marathon.period", 2)) + ch.pick_usize("marathon.due", 5)).collect()
+}
+
 pub fn run_encoder(ch: &mut Chooser, ctx: &mut Ctx) {
     let mut pool = Pool::default();
     let kind = gen_kind(ch);
-    let cfg = gen_config_for(ch, kind);
+    let marathon = gen_marathon(ch, kind);
+    let cfg = marathon.map_or_else(|| gen_config_for(ch, kind), |m| m.0);
     ctx.arm_poison(ch.seed64("poison.seed"), ch.weighted("poison.mode", &[1, 6, 2]) as u8);
     ev!(ctx, "encoder history: {} cfg={cfg:?} poison_mode={}", kind.name(), ctx.poison_mode);
     ctx.hash.feed_u64(kind.layer as u64 * 16 + kind.engine as u64);
@@ -636,10 +676,37 @@ pub fn run_encoder(ch: &mut Chooser, ctx: &mut Ctx) {
     };
 
     // mostly short histories; one in twenty is long (many consecutive rounds and resets on one object)
-    let n_ops = if cfg.0 + cfg.1 <= 64 && cfg.2 <= 2048 && ch.chance("ops.long", 1, 20) { 60 + ch.pick_usize("ops.many", 240) } else { 4 + ch.pick_usize("ops", 40) };
+    let n_ops = if marathon.is_some() { 280 } else if cfg.0 + cfg.1 <= 64 && cfg.2 <= 2048 && ch.chance("ops.long", 1, 20) { 60 + ch.pick_usize("ops.many", 240) } else { 4 + ch.pick_usize("ops", 40) };
     for op_no in 0..n_ops {
         if ctx.stop {
             return;
+        }
+        if let (Some((_, idle)), 30) = (marathon, op_no) {
+            // the idle stretch: resets to the configuration the object has, now and then with a shard added before
+            let (k, r, b) = st.cfg;
+            ctx.count("probe.marathon_histories");
+            let marks = marathon_marks(ch, idle, k);
+            let shard = gen_shard(st.data_seed, 0, 0, b);
+            for i in 0..idle {
+                let adds = marks.iter().filter(|m| **m == i).count();
+                let res = ctx.guarded(true, || {
+                    for _ in 0..adds {
+                        let _ = obj.add(&shard);
+                    }
+                    obj.reset(k, r, b)
+                });
+                if !matches!(res, Ok(Ok(()))) {
+                    ctx.viol(&verdict_props("reset", st.failed_ever), "verdict", "verdict/reset/marathon".into(), format!("{}{:?}.reset{:?} (idle reset number {i} of a marathon history) -> {res:?}", st.kind.name(), st.cfg, st.cfg), true);
+                    return;
+                }
+            }
+            ev!(ctx, "#{op_no} {idle} idle resets to {:?}", st.cfg);
+            ctx.hash.feed_u64(idle as u64);
+            ctx.count_n("probe.marathon_idle_rounds", idle as u64);
+            st.since_reset = 0;
+            st.shards.clear();
+            st.failed_round = false;
+            st.has_history = true;
         }
         let (k, _r, b) = st.cfg;
         let fill = st.shards.len();
@@ -736,7 +803,7 @@ pub fn run_encoder(ch: &mut Chooser, ctx: &mut Ctx) {
             }
             // ---------------------------------------------------- reset (valid)
             3 => {
-                let next = gen_next_config(ch, st.kind, st.cfg);
+                let next = if marathon.is_some() && ch.chance("marathon.stay", 3, 4) { gen_sibling_config(ch, st.kind, st.cfg) } else { gen_next_config(ch, st.kind, st.cfg) };
                 let need = enc_need(st.kind, next);
                 let mut acc = AllocStats::default();
                 let res = ctx.guarded(true, || meas(&mut acc, || obj.reset(next.0, next.1, next.2)));
@@ -938,6 +1005,10 @@ fn enc_encode(ch: &mut Chooser, ctx: &mut Ctx, obj: &mut dyn DynEncoder, st: &mu
         vec![]
     };
     let probe_seed = ch.seed64("probe.seed");
+    let crash_drop = ch.chance("enc.crashdrop", 1, 8);
+    if crash_drop {
+        ctx.count("fault.F13.caller_unwinds_through_result");
+    }
     let mut acc = AllocStats::default();
     let mut stage = "encode";
     let out = ctx.guarded(true, || {
@@ -957,7 +1028,13 @@ fn enc_encode(ch: &mut Chooser, ctx: &mut Ctx, obj: &mut dyn DynEncoder, st: &mu
                     std::hint::black_box(n);
                 });
                 stage = "drop";
-                meas(&mut acc, || drop(result));
+                if crash_drop {
+                    // the caller panics while the result is alive and catches the panic further up: the result is
+                    // dropped by unwinding, which must start a new round like any other drop
+                    unwind_through(result);
+                } else {
+                    meas(&mut acc, || drop(result));
+                }
                 Ok(probed)
             }
         }
@@ -1257,7 +1334,8 @@ pub fn weird_index(ch: &mut Chooser, count: usize) -> usize {
 pub fn run_decoder(ch: &mut Chooser, ctx: &mut Ctx) {
     let mut pool = Pool::default();
     let kind = gen_kind(ch);
-    let cfg = gen_config_for(ch, kind);
+    let marathon = gen_marathon(ch, kind);
+    let cfg = marathon.map_or_else(|| gen_config_for(ch, kind), |m| m.0);
     ctx.arm_poison(ch.seed64("poison.seed"), ch.weighted("poison.mode", &[1, 6, 2]) as u8);
     ev!(ctx, "decoder history: {} cfg={cfg:?} poison_mode={}", kind.name(), ctx.poison_mode);
     ctx.hash.feed_u64(0xD000 + kind.layer as u64 * 16 + kind.engine as u64);
@@ -1277,10 +1355,42 @@ pub fn run_decoder(ch: &mut Chooser, ctx: &mut Ctx) {
     let Some(mut st) = DecState::fresh(ch, ctx, kind, cfg, dec_need(kind, cfg), false) else { return };
 
     // mostly short histories; one in twenty is long (many consecutive rounds and resets on one object)
-    let n_ops = if cfg.0 + cfg.1 <= 64 && cfg.2 <= 2048 && ch.chance("ops.long", 1, 20) { 60 + ch.pick_usize("ops.many", 240) } else { 4 + ch.pick_usize("ops", 40) };
+    let n_ops = if marathon.is_some() { 280 } else if cfg.0 + cfg.1 <= 64 && cfg.2 <= 2048 && ch.chance("ops.long", 1, 20) { 60 + ch.pick_usize("ops.many", 240) } else { 4 + ch.pick_usize("ops", 40) };
     for op_no in 0..n_ops {
         if ctx.stop {
             return;
+        }
+        if let (Some((_, idle)), 30) = (marathon, op_no) {
+            // the idle stretch: resets to the configuration the object has, now and then with a shard added before
+            let (k, r, b) = st.cfg;
+            ctx.count("probe.marathon_histories");
+            let marks = marathon_marks(ch, idle, k + r);
+            for i in 0..idle {
+                // every position is marked in exactly one idle round (see `marathon_marks`); all other idle rounds
+                // are nothing but a reset
+                let res = ctx.guarded(true, || {
+                    for (pos, m) in marks.iter().enumerate() {
+                        if *m == i {
+                            if pos < k {
+                                let _ = obj.add_original(pos, &st.stripe.originals[pos]);
+                            } else {
+                                let _ = obj.add_recovery(pos - k, &st.stripe.recovery[pos - k]);
+                            }
+                        }
+                    }
+                    obj.reset(k, r, b)
+                });
+                if !matches!(res, Ok(Ok(()))) {
+                    ctx.viol(&verdict_props("reset", st.failed_ever), "verdict", "verdict/reset/marathon".into(), format!("{}{:?}.reset{:?} (idle reset number {i} of a marathon history) -> {res:?}", st.kind.name(), st.cfg, st.cfg), true);
+                    return;
+                }
+            }
+            ev!(ctx, "#{op_no} {idle} idle resets to {:?}", st.cfg);
+            ctx.hash.feed_u64(idle as u64);
+            ctx.count_n("probe.marathon_idle_rounds", idle as u64);
+            st.clear_round();
+            st.since_reset = 0;
+            st.has_history = true;
         }
         let (k, r, b) = st.cfg;
         let have = st.n_o + st.n_r;
@@ -1466,7 +1576,7 @@ pub fn run_decoder(ch: &mut Chooser, ctx: &mut Ctx) {
                 // doubled or off by one, same shard size) and the next delivery repeats the previous round's
                 // positions: whatever the object derived from "which positions arrived" must not survive
                 let sibling = !st.last_round.is_empty() && ch.chance("reset.sibling", 1, 3);
-                let next = if sibling { gen_sibling_config(ch, st.kind, st.cfg) } else { gen_next_config(ch, st.kind, st.cfg) };
+                let next = if sibling || (marathon.is_some() && ch.chance("marathon.stay", 3, 4)) { gen_sibling_config(ch, st.kind, st.cfg) } else { gen_next_config(ch, st.kind, st.cfg) };
                 let need = dec_need(st.kind, next);
                 let mut acc = AllocStats::default();
                 let res = ctx.guarded(true, || meas(&mut acc, || obj.reset(next.0, next.1, next.2)));
@@ -1657,6 +1767,10 @@ fn dec_decode(ch: &mut Chooser, ctx: &mut Ctx, obj: &mut dyn DynDecoder, st: &mu
         vec![]
     };
     let probe_seed = ch.seed64("probe.seed");
+    let crash_drop = ch.chance("dec.crashdrop", 1, 8);
+    if crash_drop {
+        ctx.count("fault.F13.caller_unwinds_through_result");
+    }
     let mut acc = AllocStats::default();
     let mut stage = "decode";
     let given_o = st.given_o.clone();
@@ -1676,7 +1790,13 @@ fn dec_decode(ch: &mut Chooser, ctx: &mut Ctx, obj: &mut dyn DynDecoder, st: &mu
                     std::hint::black_box(n);
                 });
                 stage = "drop";
-                meas(&mut acc, || drop(result));
+                if crash_drop {
+                    // the caller panics while the result is alive and catches the panic further up: the result is
+                    // dropped by unwinding, which must start a new round like any other drop
+                    unwind_through(result);
+                } else {
+                    meas(&mut acc, || drop(result));
+                }
                 Ok(probed)
             }
         }
